@@ -215,9 +215,9 @@ pub fn search_c02(rng: &mut Rng, thorough: bool) -> SearchResult {
                 match lonlat_to_cell(p, res) {
                     Ok(back) if back == id => {}
                     Ok(back) => {
-                        // the other cell must not strictly contain the point (edge band)
-                        if outside_distance(back, p.longitude(), p.latitude()) == 0.0 && contains(id, p.longitude(), p.latitude()) > 0.0 {
-                            r.viol("interior", format!("interior point ({}, {}) of {:x} maps to {:x}", p.longitude(), p.latitude(), id, back));
+                        // the point is inside the cell by more than the edge band: any other answer violates C02
+                        if inside_margin(id, p.longitude(), p.latitude()) > BAND {
+                            r.viol("interior", format!("interior point ({}, {}) of {:x} (inside by {:e}) maps to {:x}", p.longitude(), p.latitude(), id, inside_margin(id, p.longitude(), p.latitude()), back));
                         }
                     }
                     Err(e) => r.viol("interior", format!("lookup of interior point of {:x} failed: {}", id, e)),
